@@ -75,7 +75,29 @@ def int_ite(g, a, b, w, signed=True):
         if isinstance(d, int):
             if d == 0:
                 return a
+            if canon(d, w, True) < 0:
+                return gs_add(ga, gs_indicator(b_not(g), w, -d))
             return gs_add(gb, gs_indicator(g, w, d))
+        if len(d.terms) <= 4:
+            # ite(g, C + A', C + B') = C + b0 + [g](a0-b0) + sum a_k [g & h_k] + sum b_k [!g & h'_k]
+            # where C are the common terms; keeps every increment a positive conjunction guard
+            ng = b_not(g)
+            r = {}
+            for k, (h, c) in gb.terms.items():
+                if k not in d.terms:
+                    r[k] = (h, c)
+            res = GSum(w, gb.const, r)
+            dc = (ga.const - gb.const) & ((1 << w) - 1)
+            if dc:
+                res = gs_from(gs_add(res, gs_indicator(g, w, dc)), w)
+            for k in d.terms:
+                ta_ = ga.terms.get(k)
+                tb_ = gb.terms.get(k)
+                if ta_ is not None:
+                    res = gs_from(gs_add(res, gs_indicator(z3.And(g, ta_[0]), w, ta_[1])), w)
+                if tb_ is not None:
+                    res = gs_from(gs_add(res, gs_indicator(z3.And(ng, tb_[0]), w, tb_[1])), w)
+            return res.const_or_self()
     ta, tb = tobv(a, w), tobv(b, w)
     if ta.eq(tb):
         return a
@@ -325,6 +347,7 @@ class FloatCtx(object):
         self.side = []      # side constraints (r>=0, r*r==x)
         self.ufs = {}
         self.divs = []      # (divisor real term) encountered
+        self.real_assumes = []  # real-level mirror of harness assumptions on integer counts
         self.n = 0
 
     def uf(self, name, arity):
@@ -335,10 +358,37 @@ class FloatCtx(object):
         return f
 
     def cut(self, iv):
+        """real term for an integer value: const + scale * cutvar(primitive linear form)"""
         if isinstance(iv, GSum):
-            key = iv.key()
-        else:
-            key = ('bv', iv.get_id())
+            w = iv.w
+            c0 = canon(iv.const, w, True)
+            coeffs = [canon(c, w, True) for g, c in iv.terms.values()]
+            from math import gcd
+            gg = 0
+            for c in coeffs:
+                gg = gcd(gg, abs(c))
+            first = canon(iv.terms[min(iv.terms)][1], w, True)
+            if first < 0:
+                gg = -gg
+            mask = (1 << w) - 1
+            prim = GSum(w, 0, {k: (g, (canon(c, w, True) // gg) & mask) for k, (g, c) in iv.terms.items()})
+            if prim.range(True) is None or iv.range(True) is None:
+                prim, gg, c0 = iv, 1, 0
+            key = prim.key()
+            c = self.cuts.get(key)
+            if c is None:
+                self.n += 1
+                rv = z3.Real('cut!%d' % self.n)
+                c = (rv, prim)
+                self.cuts[key] = c
+                self.cutvars[rv.get_id()] = c
+            t = c[0]
+            if gg != 1:
+                t = z3.RealVal(gg) * t
+            if c0 != 0:
+                t = t + z3.RealVal(c0)
+            return t
+        key = ('bv', iv.get_id())
         c = self.cuts.get(key)
         if c is None:
             self.n += 1
